@@ -276,6 +276,33 @@ func runLimits(seed uint64, cas int, tier string) *LimRes {
 				}
 			}
 		}
+		// no_trunc: a name beyond the maximum must never be taken for the existing
+		// name that equals its first name_max bytes
+		for i := 0; i < len(names) && i < 7; i += 3 {
+			base := names[i] // exactly name_max bytes
+			if len(base) != lim.NameMax {
+				continue
+			}
+			for _, sfx := range []string{"x", longName(16, 'y'), longName(200, 'z')} {
+				long := base + sfx
+				if r := s.exec(&Op{K: OpLookup, H: md.FH, Name: long}); r.Stat == stOK {
+					viol("LOOKUP of a name of %d bytes (name_max %d) succeeds: it is answered with the entry named by its first %d bytes", len(long), lim.NameMax, lim.NameMax)
+				}
+				if r := s.exec(&Op{K: OpRename, H: md.FH, Name: long, H2: md.FH, Name2: "renamed-over-long"}); r.Stat == stOK {
+					viol("RENAME from a name of %d bytes (name_max %d) succeeds", len(long), lim.NameMax)
+				}
+				if r := s.exec(&Op{K: OpRemove, H: md.FH, Name: long}); r.Stat == stOK {
+					viol("REMOVE of a name of %d bytes (name_max %d) succeeds", len(long), lim.NameMax)
+				}
+				if r := s.exec(&Op{K: OpCreate, H: md.FH, Name: long}); r.Stat == stOK {
+					viol("CREATE of a name of %d bytes (name_max %d) succeeds", len(long), lim.NameMax)
+				}
+			}
+			if r := s.exec(&Op{K: OpLookup, H: md.FH, Name: base}); r.Stat != stOK {
+				viol("name of %d bytes can no longer be looked up (status %d) after requests that named over-long extensions of it", len(base), r.Stat)
+			}
+		}
+		note("namemax", 1, "over-long extensions of existing maximum-length names", false)
 		note("namemax", 0, "44 names of the maximum length in one directory", true)
 		for _, n := range names {
 			s.exec(&Op{K: OpRemove, H: md.FH, Name: n})
